@@ -2,6 +2,7 @@ import GixModel.Lemmas.C26Append
 import GixModel.Lemmas.C26Append2
 import GixModel.Lemmas.C26Append3
 import GixModel.Lemmas.C26Append4
+import GixModel.Lemmas.C26Repl
 import GixModel.Lemmas.C28Body
 /-
 C28 — what `load` reads back from a written file, in terms of the view; used for
@@ -112,5 +113,43 @@ theorem reparse_edited (f : FileS)
     constructor
     · simpa [fileOfEvents] using e1
     · simpa [fileOfEvents, commentsOf] using e2
+
+/-- Any file — loaded or edited — whose own events re-parse to themselves (with canonical raw
+events), and for which the writer inserts exactly one newline, right after one of its section
+headers (a key on the header line): the written text loads, with the same view and comments. -/
+theorem reparse_edited_ins (f : FileS)
+    (hs : fileFromBytes (render f.toFile.events) = some f.toFile)
+    (hc : ∀ revs, parseRaw (render f.toFile.events) = some revs → ∀ e ∈ revs, e.canon = true)
+    (pre : List Event) (hd : Header) (tl : List Event) (t : Bytes) (ht : t = [10] ∨ t = [13, 10])
+    (hev : f.toFile.events = pre ++ .header hd :: tl)
+    (haug : f.toFile.aug = pre ++ .header hd :: .newline t :: tl)
+    (hY : takeNewlines1 (render tl) = none) :
+    ∃ g, load f.write = some g ∧ g.view = f.view ∧ g.comments = f.comments := by
+  have hview : f.view = f.toFile.sections.map (fun s => (s.header, bodyEntries s.header s.body none [])) := by
+    simp [FileS.view, FileS.toFile, Sec.entries, List.map_map, Function.comp_def]
+  have hcom : f.comments = f.toFile.sections.map (fun s => commentsOf s.body) := by
+    simp [FileS.comments, FileS.toFile, List.map_map, Function.comp_def]
+  have hw : f.write = render (pre ++ .header hd :: .newline t :: tl) := by
+    unfold FileS.write
+    rw [File.write_eq, haug]
+  have hF := fileFromBytes_insK ht hs (bomLen_of_lossless hs rfl) hc hev hY
+  have hl : load f.write = (fileFromBytes f.write).map _ := rfl
+  rw [hw, hF] at hl
+  refine ⟨_, by rw [hw]; exact hl, ?_⟩
+  have := load_view (by rw [hw] at *; exact hl) hF
+  rw [hview, hcom, this.1, this.2]
+  obtain ⟨_, h1⟩ := groupSections_pre_header_nl2 hd t tl pre
+  have hfo : fileOfEvents f.toFile.events = f.toFile := fileOfEvents_of_parsed hs
+  have hsec : (groupSections (pre ++ .header hd :: tl)).2 = f.toFile.sections := by
+    have := congrArg File.sections hfo
+    rw [hev] at this
+    simpa [fileOfEvents] using this
+  rw [hsec] at h1
+  have e1 := congrArg (List.map fun p : Header × List Entry × List Event => (p.1, p.2.1)) h1
+  have e2 := congrArg (List.map fun p : Header × List Entry × List Event => p.2.2) h1
+  simp only [List.map_map, Function.comp_def] at e1 e2
+  constructor
+  · simpa [fileOfEvents] using e1
+  · simpa [fileOfEvents, commentsOf] using e2
 
 end GixModel.C28
